@@ -17,11 +17,11 @@ package account
 //verif:override encoding/json.Unmarshal -> verifC26Unmarshal
 //verif:override encoding/json.Marshal -> verifC26Marshal
 //verif:override (*github.com/bytom/bytom/protocol/bc.Hash).String -> verifC26HashString
-//verif:obligation fn=VerifC26Reserve args=1,0,0,1;2,0,0,1;1,1,0,1;1,1,1,1;1,1,2,1 secs=900 validate=12
-//verif:obligation fn=VerifC26Reserve args=2,1,0,0;2,1,1,0;2,1,2,0 secs=900
-//verif:obligation fn=VerifC26Reserve args=2,1,0,1;1,1,0,2;1,1,3,1 tier=thorough secs=3000 paths=4000000
-//verif:obligation fn=VerifC26Particular args=1,1,0;2,0,0 secs=900 validate=12
-//verif:obligation fn=VerifC26Particular args=2,1,0 tier=thorough secs=3000 paths=4000000
+//verif:obligation fn=VerifC26Reserve args=1,0,0,1;2,0,0,1;1,1,0,1;1,1,1,1;1,1,2,1 secs=900 validate=12 timeout=120000
+//verif:obligation fn=VerifC26Reserve args=2,1,0,0;2,1,1,0;2,1,2,0 secs=900 timeout=120000
+//verif:obligation fn=VerifC26Reserve args=2,1,0,1;1,1,0,2;1,1,3,1 tier=thorough secs=3000 paths=4000000 timeout=120000
+//verif:obligation fn=VerifC26Particular args=1,1,0;2,0,0 secs=900 validate=12 timeout=120000
+//verif:obligation fn=VerifC26Particular args=2,1,0 tier=thorough secs=3000 paths=4000000 timeout=120000
 
 import (
 	"bytes"
